@@ -39,7 +39,7 @@ func StateRange() bool {
 	for t := 0; t < NT; t++ {
 		c := &S.Configs[t]
 		ok = ok && c.Index <= m && c.Proposed <= m && c.Committed <= m && c.Applied <= m && S.MaxCommitted[t] <= m && S.LastMerged[t] <= m
-		ok = ok && c.Term < 100 && c.AppliedTerm < 100 && S.Devs[t].MaxElection < 100
+		ok = ok && c.Term < 100 && c.AppliedTerm < 100 && S.Devs[t].MaxElection < 100 && c.Master <= 3 && c.AppliedMaster <= 3
 		for j := 0; j < NX; j++ {
 			ok = ok && c.Values[j].Index <= m && c.AppliedVals[j].Index <= m
 		}
@@ -103,6 +103,7 @@ func StatePredicates(prefix string) {
 		verifrt.Region(prefix+"reach:tx2-applied", S.Txs[NX-1].State == txAPPLIED)
 		verifrt.Region(prefix+"reach:tx2-failed-aborted", S.Txs[NX-1].State == txFAILED && txTerminal(1))
 	}
+	verifrt.Region(prefix+"reach:resynced-in-second-term", WithSync && S.Configs[0].Exists && S.Configs[0].Term >= 2 && S.Configs[0].AppliedTerm == S.Configs[0].Term && S.Configs[0].Applied > 0)
 	verifrt.Region(prefix+"reach:crashed", S.Crashes > 0)
 	verifrt.Region(prefix+"reach:fault", S.Faults > 0)
 	allTerminal, connected, anyTx := true, true, false
@@ -185,6 +186,62 @@ func StatePredicates(prefix string) {
 	verifrt.Region(prefix+"bad:c02-merge-out-of-order", S.MergeOutOfOrder)
 	verifrt.Region(prefix+"bad:c02-send-before-merge", S.SendBeforeMerge)
 	verifrt.Region(prefix+"bad:c02-send-out-of-order", S.SendOutOfOrder)
+	// ---- C06: rollbacks
+	if WithRollback {
+		restoredBad, inadmissible, devBad, rbCommitted, rbFailed := false, false, false, false, false
+		for k := 0; k < NX; k++ {
+			rb := &S.Txs[k]
+			if !rb.Exists || !rb.IsRollback {
+				continue
+			}
+			done := rb.State == txCOMMITTED || rb.State == txAPPLIED
+			if done {
+				rbCommitted = true
+			}
+			if rb.State == txFAILED {
+				rbFailed = true
+			}
+			// admissible: names an existing, earlier change transaction that was committed and is the most recent
+			// committed change of (all) its targets
+			ri := int(rb.RollbackIndex) - 1
+			ok := false
+			for i := 0; i < k; i++ {
+				if i != ri {
+					continue
+				}
+				tgt := &S.Txs[i]
+				ok = tgt.Exists && !tgt.IsRollback
+				for j := i + 1; j < k; j++ {
+					oth := &S.Txs[j]
+					if oth.Exists && !oth.IsRollback && (oth.State == txCOMMITTED || oth.State == txAPPLIED) {
+						for t := 0; t < NT; t++ {
+							if tgt.Targets[t] && oth.Targets[t] {
+								ok = false // a later change of a shared target has been committed
+							}
+						}
+					}
+				}
+				if done {
+					for t := 0; t < NT; t++ {
+						if tgt.Targets[t] && live(t, i) {
+							restoredBad = true // the rolled back leaf is still readable
+						}
+						if tgt.Targets[t] && rb.State == txAPPLIED && S.Devs[t].Connected && S.Devs[t].Vals[i].Present {
+							devBad = true
+						}
+					}
+				}
+			}
+			if done && !ok {
+				inadmissible = true
+			}
+		}
+		verifrt.Region(prefix+"reach:rollback-committed", rbCommitted)
+		verifrt.Region(prefix+"reach:rollback-refused", rbFailed)
+		verifrt.Region(prefix+"bad:c06-rolled-back-leaf-still-readable", restoredBad)
+		verifrt.Region(prefix+"bad:c06-rolled-back-leaf-still-on-device", devBad)
+		verifrt.Region(prefix+"bad:c06-inadmissible-rollback-accepted", inadmissible)
+	}
 	// ---- C10
 	verifrt.Region(prefix+"bad:c10-send-with-stale-election-id", S.SendNotMaster)
 	verifrt.Region(prefix+"bad:c10-send-before-resync", S.SendWhileUnsynced)
@@ -221,6 +278,25 @@ func StepContracts(pre *State, choice int) {
 			verifrt.Assert(b.Applied >= a.Applied, "c02-applied-index-never-decreases")
 			verifrt.Assert(b.Proposed >= a.Proposed, "c02-proposed-index-never-decreases")
 			verifrt.Assert(b.Term >= a.Term, "c10-term-never-decreases")
+			if WithSync {
+				// C10: a new term begins exactly when mastership is assigned again; the master is a live connection
+				if b.Master != a.Master && b.Master != 0 {
+					verifrt.Cover("master-assigned")
+					verifrt.Assert(b.Term == a.Term+1, "c10-new-master-starts-a-new-term")
+					verifrt.Assert(S.Devs[t].Connected && b.Master == curGen(t), "c10-master-is-a-live-connection")
+				}
+				if b.Master == a.Master {
+					verifrt.Assert(b.Term == a.Term, "c10-term-changes-only-with-the-master")
+				}
+				if a.Master != 0 && b.Master == 0 {
+					verifrt.Assert(!pre.Devs[t].Connected || a.Master != curGen(t), "c10-resign-only-without-connection")
+				}
+				// no new change is sent in a term until the previously applied configuration has been re-sent in that term:
+				// the applied term catches up only by the configuration controller's re-push step
+				if b.AppliedTerm != a.AppliedTerm {
+					verifrt.Assert(choice == ChCfg+t && b.AppliedTerm == a.Term && a.State == int32(configapi.ConfigurationStatus_SYNCHRONIZING), "c10-applied-term-advances-only-by-resync")
+				}
+			}
 		}
 		// C05 / C01: a proposal becomes VALIDATED only with a true verdict of this very step, on top of its predecessor's commit
 		for i := 0; i < NX; i++ {
@@ -287,7 +363,7 @@ func StepContracts(pre *State, choice int) {
 			verifrt.Cover("tx-validated")
 			tg := txTargetsOf(pre, i)
 			for t := 0; t < NT; t++ {
-				if tg[t] {
+				if tg[t] && ta.ProposalsSet {
 					pp := &pre.Props[t][i]
 					verifrt.Assert(pp.Exists && pp.Validate.Present && pp.Validate.State == pvVALIDATED, "c01-transaction-validated-needs-all-proposals-validated")
 				}
@@ -335,6 +411,13 @@ func failureClassOf(code int32) int32 {
 		return int32(configapi.Failure_INTERNAL)
 	}
 	return int32(configapi.Failure_UNKNOWN)
+}
+
+func curGen(t int) uint8 {
+	if S.Devs[t].Gen {
+		return 2
+	}
+	return 1
 }
 
 func txTargetsOf(st *State, i int) [NT]bool {
